@@ -211,7 +211,7 @@ def check(res, tier, replay=None):
     if prep.bdir and prep.driver_ok:
         r = vcommon.rng("c05")
         n = 1500 if tier == "quick" else 15000
-        cases = directed()
+        cases = directed() + c0405_lib.kernel_cases()
         cases += [gen_history(r, res) for _ in range(n)]
         if tier == "quick":
             # all words up to length 2 and a seeded sample of the words of length 3
